@@ -18,7 +18,10 @@ META = {
             "collection schedules (none, every k-th instruction, forced between evaluations, drop-and-reintern) are "
             "compared with the heap model and with the specification 'eq? iff names equal'.",
     "note": "Closed theorems: T18.1 (interned_ptr_eq_iff, interned_eqv_iff, production_interns, "
-            "maybePut_production_interns, two_productions_eq_iff, collection_keeps_symbol), T18.3 "
+            "maybePut_production_interns, two_productions_eq_iff, collection_keeps_symbol; machine level: "
+            "symbols_interned_in_every_reachable_state, symbol_addresses_interned_in_every_reachable_state, "
+            "symbols_interned_of_goodI, symbol_production_interns_machine, put_symbol_interns_concrete, "
+            "maybePut_symbol_interns_concrete), T18.3 "
             "(symbol_string_roundtrip). Partial: T18.4 (string_symbol_roundtrip_encoder_partial, "
             "string_symbol_roundtrip_plain_partial) with proved negations peculiar_identifier_not_fixed and "
             "escaped_literal_not_fixed: a reader spelling that is not the spelling string->symbol builds for its name "
@@ -26,10 +29,26 @@ META = {
             "a second symbol with the same name — known finding C18-reader-spelling-not-canonical (the suite pins "
             "(string->symbol \"12foo\") => \\x31;2foo, so the encoder cannot simply keep reader spellings). The backslash "
             "defect of the pinned string->symbol was repaired (fix commit b17ac76) and is kept as proved counterexamples "
-            "pinned_*. 'Whatever produced them' is carried by the theorem about put plus the exploration over routes: "
-            "that each route ends in Heap::put of the spelling is checked by the correspondence, not proved (the "
-            "compiler/VM model belongs to other work packages). 'Regardless of collections' for a whole program is "
-            "the theorem collection_keeps_symbol (one collection, reachable symbol) plus the schedule exploration. "
+            "pinned_*. MACHINE LEVEL (closed theorems about executions, not about the heap API): for the concrete machine "
+            "(Vm/ConcreteHeap.lean: run_one over the heap with its real free list and symbol table, run_gc = the C03 "
+            "collector model) started in a state satisfying the invariant GoodI, "
+            "symbols_interned_in_every_reachable_state says that in EVERY reachable state - after any number of "
+            "instructions and of collections at any boundaries - two values sitting in acc, a stack cell <= sp, a global "
+            "slot, a boxed cell, the car/cdr of a pair, a vector element, an environment slot or a saved continuation "
+            "stack that point to symbol cells are equal iff the names are equal "
+            "(symbol_addresses_interned_in_every_reachable_state: the same on addresses the collector's roots or an "
+            "allocated cell refer to, with eqvSym = decide(names equal)); symbol_production_interns_machine: after any "
+            "instruction from a reachable state every allocated symbol cell - so every cell the instruction created - "
+            "is the unique allocated cell of its name and the table maps the name to it; put_symbol_interns_concrete / "
+            "maybePut_symbol_interns_concrete: the concrete allocator returns the existing cell (heap unchanged) or, "
+            "only when no allocated cell holds the name, a fresh one. These follow from goodI_reaches (GoodI is "
+            "preserved by each of the 16 opcodes and by run_gc) + Interned. Their hypotheses are those of T03.5/T13.3 "
+            "(DESIGN 7.5): ExtLaws/ExtGood (the 142 generic builtins incl. string->symbol, eval's compiler and VPUSH are "
+            "parameters that keep the heap invariant - a builtin storing a second cell for a name would violate "
+            "ExtGood; that the Rust builtins satisfy it is what the 8-routes exploration tests), SizeBounded, "
+            "StackDiscAlong; hypotheses shown satisfiable on the HALT demo state. What is still carried by the "
+            "correspondence only: that the reader/compiler (prepare_eval, outside run_one) routes quoted data through "
+            "put_cell, i.e. that the initial state of each evaluation satisfies GoodI (CompGood). "
             "Trusted: Lean kernel; axioms propext, Classical.choice, Quot.sound; models tied to the code by differential "
             "testing only; character classes of the scanner (is_alphabetic on Latin-1) are the table of Marwood.Lex, "
             "compared exhaustively with Rust by the C11 stream and here through string->symbol of every scalar value.",
@@ -43,7 +62,10 @@ THEOREMS = ["Marwood.Proofs.C18." + t for t in [
     "two_productions_eq_iff", "collection_keeps_symbol", "symbol_string_roundtrip",
     "string_symbol_roundtrip_encoder_partial", "string_symbol_roundtrip_plain_partial",
     "peculiar_identifier_not_fixed", "escaped_literal_not_fixed",
-    "pinned_backslash_not_inverse", "pinned_backslash_unreadable", "pinned_two_spellings_one_name"]]
+    "pinned_backslash_not_inverse", "pinned_backslash_unreadable", "pinned_two_spellings_one_name",
+    "symbols_interned_of_goodI", "symbol_addresses_interned_in_every_reachable_state",
+    "symbols_interned_in_every_reachable_state", "symbol_production_interns_machine",
+    "put_symbol_interns_concrete", "maybePut_symbol_interns_concrete"]]
 
 
 def nontrivial(req, impl):
